@@ -99,7 +99,10 @@ def run(repo, rep):
         for h in [x for x in ast.walk(f.node) if isinstance(x, ast.ExceptHandler)]:
             # assignments to the result inside this handler body (not nested try bodies' normal path)
             for s in _direct_stmts(h.body):
-                if isinstance(s, ast.Assign) and result_var and src(s.targets[0]) == result_var:
+                # the handler decides what stands for the failed print: ``doc = <fallback>`` or, in early-return style, ``return <fallback>``
+                is_result = (isinstance(s, ast.Assign) and result_var and src(s.targets[0]) == result_var) or \
+                    (isinstance(s, ast.Return) and s.value is not None and not isinstance(s.value, ast.Name))
+                if is_result:
                     if isinstance(s.value, ast.Call) and isinstance(s.value.func, ast.Name) and \
                             s.value.func.id in {nm for _, _, nm in sites}:
                         continue    # the retry
